@@ -4,12 +4,22 @@ import json, os
 CLAIMED = {
  'C01': ('4.C01', 'buffer/flush stream law and the upstream->client relay law as postconditions of the real functions; client-side teardown clauses shared with C07',
          'E-SEND/E-RECV socket contracts, A-ATOM, A-VIEW, A-PARSE (bookkeeping parser used via contract), plugins return chunks unchanged, connection pool off'),
+ 'C02': ('4.C02', 'first and later requests: hop-by-hop fields removed, Via added (first request), operator-disabled fields not emitted, chunked bodies re-encoded incl. the empty one — postconditions on on_request_complete / on_client_data / _get_body_or_chunks; equality of whole forwarded requests: exhaustive native end-to-end sweep (bounded)',
+         'HttpParser.build (dict comprehension) used through an assumed field-emission contract and covered by the bounded sweep; known finding F18 (no Via on follow-ups) carved out'),
+ 'C03': ('4.C03', 'framing-skeleton step contracts proved for all inputs (find_http_line, ChunkParser.process per state, HttpParser._process_body Content-Length arithmetic); segmentation independence of whole messages: exhaustive native cut-set sweep (bounded stand-in)',
+         'A-STR (int parsing uninterpreted); the relational statement feed(pieces)==feed(whole) is bounded (message family x all 2-/3-piece cuts + bytewise), not proved'),
+ 'C04': ('4.C04', 'reduced claim: follow-up branch of HttpProxyPlugin.on_client_data — an incomplete follow-up request is kept across segments, a complete one is forwarded exactly once, scrubbed, and the parser reset',
+         'right-origin / right-route selection for follow-ups is NOT claimed (open known findings F11, F12); adversarial follow-up parser; pass-through-or-drop plugins'),
  'C05': ('4.C05', 'no-escape and isolation-frame contracts on Threadless._cleanup/_cleanup_inactive and ThreadlessFdExecutor.work against adversarial works',
          'E-SEL (selector does not raise for recorded descriptors), asyncio task plumbing (_run_once) not covered, _cleanup_inactive loops unrolled (bounded: <=2 works)'),
+ 'C06': ('4.C06', 'build_http_pkt == RFC 7230 serialisation spec function (loop invariant), Content-Length framing rule of build_http_response, _parse_first_request: parse failure => exactly the canned 400 + exception, rejection => 400 + teardown; every self-made response parsed by http.client in a native closed-term / grid check (bounded)',
+         'A-STR (lower/join uninterpreted), adversarial parser and plugin contracts; okResponse / canned packets are covered by the bounded native check only'),
  'C07': ('4.C07', 'teardown only when the client buffer is empty or the client is dead (T1), write interest while output is pending (T2), promptness (T3), deferred teardown flag (T4) on the real handlers',
          'peer keeps reading; handle_data used via adversarial contract; known finding F20 (threaded final flush + SSLWant*) carved out under C10'),
  'C08': ('4.C08', 'auth predicate == credential spec (accept iff header present, two tokens, basic, exact code) as normal/exceptional postconditions; rejection reaches nothing (ghost connect counter); Proxy-Authorization never in the forwarded request',
          'A-STR (lower / whitespace split uninterpreted), adversarial plugin hooks, HttpParser.build used through its field-emission contract (instances for the hop-by-hop names), connect_upstream via contract'),
+ 'C09': ('4.C09', 'hook chains of on_request_complete: before_upstream_connection / handle_client_request run in configured (dict) order, each plugin at most once, None ends the chain and suppresses connect / forwarding, a rejection ends it before any handle_client_request — ghost call logs with loop invariants; lifecycle: close hook exactly once on all exits of shutdown()',
+         'plugin load order (Plugins.load / FlagParser) not under contract; request-object identity along the chain not tracked; on_access_log chain not covered'),
  'C10': ('4.C10', 'C05 bookkeeping + shutdown(): client socket closed exactly once and plugin close hook exactly once on all exits; received descriptor closed exactly once',
          'socket.close releases the descriptor (kernel tables not modelled); TLS unwrap branch not modelled; _flush termination not proved; F20 carved out'),
  'C11': ('4.C11', 'reduced claim: the verification parameters handed to ssl for the upstream handshake (verify_mode, check_hostname, cafile, server_hostname) and the SAN kind handed to openssl, as postconditions with a ghost handshake record',
@@ -18,6 +28,10 @@ CLAIMED = {
          'regex matching uninterpreted; dynamic routes modelled as returning a Url; Url.from_bytes / HttpParser.build / connect via contracts; one request per connection (F11 open)'),
  'C13': ('4.C13', 'confinement postcondition on the path handed to serve_static_file (ghost log of opened paths) against an independently written inside() predicate',
          'E-PATH (normpath resolves dot segments, no symlinks), serve_static_file via contract'),
+ 'C14': ('4.C14', 'default ports (80 / 443 for CONNECT), host / host:port authority splitting, connect dispatch (literal vs name, IPv6 brackets removed) as postconditions; full request-target grammar incl. userinfo and IPv6 forms: native sweep vs urllib.parse (bounded)',
+         'A-STR; IPv6 / userinfo branches of Url._parse are bounded (sweep), known finding F17 (damaged authorities accepted) carved out'),
+ 'C15': ('4.C15', 'codec step contracts and builder specs shared with C03/C06 (re-proved), empty chunked body re-encoding; whole-message round trips parse(build), build(parse), decode(encode) for all chunk sizes vs a reference decoder, update_body: native sweep (bounded)',
+         'whole-message round trips are bounded, not proved; ChunkParser.to_chunks itself only through the sweep'),
  'C16': ('4.C16', 'build() == RFC 6455 spec function for every field combination and every payload length (unbounded ints); parse() inverts it incl. trailing bytes; apply_mask loop invariant',
          'E-CODEC (struct.pack/unpack big-endian; 8-byte form axiomatised by pack/unpack inverse), two xormask lemmas assumed with bounded check, bytes are code points 0..255'),
  'C18': ('4.C18', 'per-event contract of EventDispatcher.handle_event/_send/_close_and_delete over a ghost delivery log (channel, message): ack-or-drop on subscribe, at most one ack and removal on unsubscribe, fan-out of exactly this event; _broadcast unrolled for <= 3 subscribers (the property\'s own bound) plus an exhaustive native script sweep',
